@@ -33,7 +33,7 @@ chk('C17', 'model_checking',
     'ShortestPaths.tla defines distances by a Bellman-Ford fixpoint and an O(nm) certificate (potential inequalities + reachability in the tight-edge subgraph); '
     'TLC proves certificate == Bellman-Ford on every multigraph of the small class (and that every single-entry perturbation is rejected), enumerates every multigraph '
     'on 4 nodes with <=3 (quick) / <=4 (thorough) edges incl. self-loops, parallel and zero-weight edges for replay, and judges the matrices the real dijkstra / johnsons / '
-    'floyd_warshall / ConstrainedFDLayout::readLinearD,G return for those and for seeded random graphs up to 100 / 300 nodes. Exact equality on a 1/8 weight lattice.',
+    'floyd_warshall / ConstrainedFDLayout::readLinearD,G return for those and for seeded random graphs up to 100 / 200 nodes. Exact equality on a 1/8 weight lattice.',
     'Weights are multiples of 1/8 (sums exact in doubles). floyd_warshall was repaired (fix: commit) after this check found F1. Extra stage beyond the statement: Heap.tla / HeapTrace.tla (the PairingHeap under Dijkstra and VPSC: call histories generated from the specification, every recorded call of the real heap validated).',
     'TLA+ Bellman-Ford/certificate specification; TLC-enumerated multigraphs replayed; record validation', '4/C17')
 
